@@ -229,7 +229,7 @@ theorem poolInv_cancel (cfg : PCfg) (s : PSys) (σ : Nat) (h : PoolInv cfg s) :
     · exact h.cancelled _ g hg
     · exact h.own _ hst g (List.mem_reverse.1 hg)
 
-theorem pstep_inv (cfg : PCfg) (hf : cfg.freshList = true) (s : PSys) (ev : Ev)
+theorem poolStep_inv (cfg : PCfg) (hf : cfg.freshList = true) (s : PSys) (ev : Ev)
     (h : PoolInv cfg s) : PoolInv cfg (pstep cfg s ev) := by
   cases ev with
   | «begin» σ => exact poolInv_begin cfg hf s σ h
@@ -241,7 +241,7 @@ theorem prun_inv (cfg : PCfg) (hf : cfg.freshList = true) (s : PSys) (evs : List
     (h : PoolInv cfg s) : PoolInv cfg (prun cfg s evs) := by
   induction evs generalizing s with
   | nil => exact h
-  | cons ev rest ih => exact ih _ (pstep_inv cfg hf s ev h)
+  | cons ev rest ih => exact ih _ (poolStep_inv cfg hf s ev h)
 
 /-- **pool_isolation** — `self._futures` bound to a fresh list at the start of every search: for
     every event sequence — any number of overlapping pool-parallel searches, any interleaving of
